@@ -30,7 +30,8 @@ def classify(why, f, c, o):
     if hang and "mgmt.rel" in crash_at and any("@mgmt.acq" in b for b in blocked):
         return {"defect": "D14"}
     # D15: worker dies after writing its exit announcement, still holding the result-queue write lock
-    if hang and "rq.wlock.rel" in crash_at:
+    #      (treated as a clean exit: either the other workers hang on the lock, or the death simply goes unnoticed)
+    if (hang and "rq.wlock.rel" in crash_at) or "rq.wlock.rel" in f.get("crash_ann", []):
         return {"defect": "D15"}
     # D6: a done-callback that submits (it runs in the manager thread and needs the submit/resize lock) while a caller of
     #     get_reusable_executor holds that lock and waits for something only the manager thread can do
@@ -50,16 +51,14 @@ def classify(why, f, c, o):
     # D18: explicit shutdown(wait=False) of the reusable executor racing with a resize by another thread: _resize spawns
     #      workers on an executor whose manager is already in its final join
     if hang and "reuse" in ops and any(op.startswith("shutdown") for op in ops) and len(c["scn"]["users"]) > 1 \
-            and any(b.startswith("mgr@pjoin") for b in blocked) and not f["crashes"]:
+            and any(b.startswith("mgr@pjoin") or b.startswith("mgr@wait") for b in blocked) and not f["crashes"]:
         return {"defect": "D18"}
     # D17: the last pending work item is a cancelled one: it is dropped without any event and the manager goes back to sleep
     #      although a shutdown / interpreter exit is waiting for it
     if hang and "cancel" in ops and mgr_wait and not f["crashes"] and "del" not in ops and not o.get("pending") \
             and any("@tjoin(mgr)" in b for b in blocked):
         return {"defect": "D17"}
-    # D16: abrupt death after a graceful shutdown began, while the manager is in its final join loop
-    if hang and f["crashes"] and any(b.startswith("mgr@pjoin") for b in blocked) and any(op.startswith("shutdown") for op in ops):
-        return {"defect": "D16"}
+    # (D16 / D22 -- abrupt death around a graceful shutdown, manager stuck in its final join -- are fixed: no signature)
     # D11: a task raising an exception that cannot be pickled takes its worker down (exit status 1): pool broken
     if "unpicklable_exc" in f["kinds"] and not f["crashes"] and any(
             e["ev"] == "die" and e.get("how") == "exit" and e.get("code") == 1 for e in o["trace"]):
